@@ -29,6 +29,20 @@ pub enum ROp {
     IterNth(u8),
     Seek(u8),
     Count,
+    /// read_nth_shape_as::<a user-defined ReadableShape>(i) whose `read_from` panics after it has
+    /// consumed the type code and 8 more bytes; the caller catches the panic and goes on using
+    /// the reader (a random access that neither succeeds nor returns)
+    NthPanic(u8),
+}
+
+/// A caller's own readable shape (the trait is public) that gives up by panicking.
+struct Brittle;
+impl shapefile::ReadableShape for Brittle {
+    fn read_from<T: std::io::Read>(source: &mut T, _record_size: i32) -> Result<Self, shapefile::Error> {
+        let mut b = [0u8; 12];
+        source.read_exact(&mut b)?;
+        panic!("the caller's shape type cannot represent this record");
+    }
 }
 
 #[derive(Clone, Copy, Debug, PartialEq, Eq, Hash, Serialize, Deserialize)]
@@ -36,6 +50,8 @@ pub enum RKind {
     ShpIndex,
     ShpNoIndex,
     Full,
+    /// the complete reader over a ShapeReader without index (the .shx is optional by path too)
+    FullNoIndex,
 }
 
 #[derive(Clone, Debug, Serialize, Deserialize)]
@@ -159,6 +175,8 @@ enum Obs {
     Nth(Option<Item>),
     Unit(Result<(), RErr>),
     Count(Result<usize, RErr>),
+    /// whether the call unwound (and was caught)
+    Caught(bool),
 }
 
 fn row_idx(r: &dbase::Record) -> Option<i64> {
@@ -252,6 +270,11 @@ fn apply(r: &mut AnyReader, op: ROp, n: usize) -> Result<Obs, PanicInfo> {
         (AnyReader::Full(_), ROp::NthWrong(_)) => Obs::Unit(Ok(())),
         (AnyReader::Shp(r), ROp::Seek(k)) => Obs::Unit(r.seek(k as usize).map_err(|e| classify(&e))),
         (AnyReader::Full(r), ROp::Seek(k)) => Obs::Unit(r.seek(k as usize).map_err(|e| classify(&e))),
+        (AnyReader::Shp(r), ROp::NthPanic(i)) => {
+            let res = std::panic::catch_unwind(std::panic::AssertUnwindSafe(|| r.read_nth_shape_as::<Brittle>(i as usize).is_some()));
+            Obs::Caught(res.is_err())
+        }
+        (AnyReader::Full(_), ROp::NthPanic(_)) => Obs::Unit(Ok(())),
         (AnyReader::Shp(r), ROp::Count) => Obs::Count(r.shape_count().map_err(|e| classify(&e))),
         (AnyReader::Full(r), ROp::Count) => Obs::Count(r.shape_count().map_err(|e| classify(&e))),
     })
@@ -267,6 +290,7 @@ fn op_name(op: ROp) -> String {
         ROp::IterNth(j) => format!("iter-nth({})", j),
         ROp::Seek(k) => format!("seek({})", k),
         ROp::Count => "count".into(),
+        ROp::NthPanic(i) => format!("nth-as-panicking-user-type({})", i),
     }
 }
 
@@ -284,6 +308,7 @@ fn history_site(ops: &[ROp], upto: usize) -> String {
         ROp::IterNth(_) => "iternth",
         ROp::Seek(_) => "seek",
         ROp::Count => "count",
+        ROp::NthPanic(_) => "nthpanic",
     };
     let prev = if upto > 0 { k(&ops[upto - 1]) } else { "fresh" };
     format!("{}-then-{}", prev, k(&ops[upto]))
@@ -292,7 +317,7 @@ fn history_site(ops: &[ROp], upto: usize) -> String {
 pub fn run_history(scn: &HrScn, f: &ValidFile, dbf: &[u8], ctx: &mut Ctx) {
     let n = f.expected.len();
     let never = |_: usize, _: usize| false;
-    if scn.layout != 0 && scn.kind == RKind::ShpNoIndex {
+    if scn.layout != 0 && matches!(scn.kind, RKind::ShpNoIndex | RKind::FullNoIndex) {
         ctx.fail("HARNESS", "invalid-scenario", "histr", "a re-laid-out file can only be read with its index".to_string());
         return;
     }
@@ -302,6 +327,7 @@ pub fn run_history(scn: &HrScn, f: &ValidFile, dbf: &[u8], ctx: &mut Ctx) {
             RKind::ShpIndex => AnyReader::Shp(ShapeReader::with_shx(src(&shp, scn.rbuf), src(&shx, scn.rbuf))?),
             RKind::ShpNoIndex => AnyReader::Shp(ShapeReader::new(src(&shp, scn.rbuf))?),
             RKind::Full => AnyReader::Full(Reader::new(ShapeReader::with_shx(src(&shp, scn.rbuf), src(&shx, scn.rbuf))?, dbase::Reader::new(src(dbf, scn.rbuf))?)),
+            RKind::FullNoIndex => AnyReader::Full(Reader::new(ShapeReader::new(src(&shp, scn.rbuf))?, dbase::Reader::new(src(dbf, scn.rbuf))?)),
         })
     });
     let mut rdr = match opened {
@@ -315,7 +341,8 @@ pub fn run_history(scn: &HrScn, f: &ValidFile, dbf: &[u8], ctx: &mut Ctx) {
             return;
         }
     };
-    let has_index = scn.kind != RKind::ShpNoIndex;
+    let has_index = !matches!(scn.kind, RKind::ShpNoIndex | RKind::FullNoIndex);
+    let with_rows = matches!(scn.kind, RKind::Full | RKind::FullNoIndex);
     let hist = history_name(&scn.ops);
     // the model: set of possible positions of the next record an iteration yields;
     // `after_iter` = the previous state-changing call was an iteration that took items
@@ -334,7 +361,7 @@ pub fn run_history(scn: &HrScn, f: &ValidFile, dbf: &[u8], ctx: &mut Ctx) {
             }
         };
         ctx.stats.reach(&history_site(&scn.ops, oi));
-        let site = format!("{}:{}{}", history_site(&scn.ops, oi), match scn.kind { RKind::ShpIndex => "index", RKind::ShpNoIndex => "noindex", RKind::Full => "full" }, if scn.layout != 0 { ":relaid" } else { "" });
+        let site = format!("{}:{}{}", history_site(&scn.ops, oi), match scn.kind { RKind::ShpIndex => "index", RKind::ShpNoIndex => "noindex", RKind::Full => "full", RKind::FullNoIndex => "full-noindex" }, if scn.layout != 0 { ":relaid" } else { "" });
         match (op, obs) {
             (ROp::Count, Obs::Count(c)) => {
                 let want = if has_index { Ok(n) } else { Err(RErr::MissingIndex) };
@@ -342,7 +369,18 @@ pub fn run_history(scn: &HrScn, f: &ValidFile, dbf: &[u8], ctx: &mut Ctx) {
                     ctx.fail("C15", "count-constant", site, format!("history {} ({:?}): shape_count() at call {} = {:?}, expected {:?}", hist, scn.kind, oi, c, want));
                 }
             }
-            (ROp::Nth(_), Obs::Unit(_)) | (ROp::NthWrong(_), Obs::Unit(_)) => {} // not available on the complete reader
+            (ROp::Nth(_), Obs::Unit(_)) | (ROp::NthWrong(_), Obs::Unit(_)) | (ROp::NthPanic(_), Obs::Unit(_)) => {} // not available on the complete reader
+            (ROp::NthPanic(i), Obs::Caught(unwound)) => {
+                let i = *i as usize;
+                let expect = has_index && i < n;
+                if unwound != expect {
+                    ctx.fail("C15", "random-access-as-panicking-type", site, format!("history {} ({:?}): read_nth_shape_as::<user type>({}) {} although {}", hist, scn.kind, i, if unwound { "reached the user's read_from" } else { "did not reach the user's read_from" }, if expect { "the entry exists" } else { "there is no such entry (or no index)" }));
+                }
+                if expect {
+                    // like a random access that failed: from the first record, or from where the reader was
+                    cand.insert(0);
+                }
+            }
             (ROp::NthWrong(i), Obs::Nth(x)) => {
                 let i = *i as usize;
                 let want = if !has_index {
@@ -419,7 +457,7 @@ pub fn run_history(scn: &HrScn, f: &ValidFile, dbf: &[u8], ctx: &mut Ctx) {
                     let avail = n.saturating_sub(p);
                     if avail > j {
                         let ok = !ended
-                            && matches!(items.first(), Some(Ok((g, row))) if diff_read(&f.expected[p + j], g, p + j, &never).is_none() && (scn.kind != RKind::Full || *row == Some((p + j) as i64)));
+                            && matches!(items.first(), Some(Ok((g, row))) if diff_read(&f.expected[p + j], g, p + j, &never).is_none() && (!with_rows || *row == Some((p + j) as i64)));
                         if ok {
                             next.insert(p + j + 1);
                             next.insert(0);
@@ -464,7 +502,7 @@ pub fn run_history(scn: &HrScn, f: &ValidFile, dbf: &[u8], ctx: &mut Ctx) {
                         continue;
                     }
                     let ok = items.iter().enumerate().all(|(t, it)| match it {
-                        Ok((g, row)) => diff_read(&f.expected[p + t], g, p + t, &never).is_none() && (scn.kind != RKind::Full || *row == Some((p + t) as i64)),
+                        Ok((g, row)) => diff_read(&f.expected[p + t], g, p + t, &never).is_none() && (!with_rows || *row == Some((p + t) as i64)),
                         Err(_) => false,
                     });
                     if ok {
@@ -534,11 +572,12 @@ pub fn alphabet(n: usize) -> Vec<ROp> {
         a.push(ROp::Seek(k as u8));
     }
     a.push(ROp::Count);
+    a.push(ROp::NthPanic(1));
     a
 }
 
 /// The configurations swept: (reader, pairwise different sizes?, layout, number of records).
-const CONFIGS: [(RKind, bool, u8, usize); 16] = [
+const CONFIGS: [(RKind, bool, u8, usize); 18] = [
     (RKind::ShpIndex, true, 0, 3),
     (RKind::ShpNoIndex, true, 0, 3),
     (RKind::Full, true, 0, 3),
@@ -556,8 +595,11 @@ const CONFIGS: [(RKind, bool, u8, usize); 16] = [
     (RKind::ShpNoIndex, true, 0, 1),
     (RKind::ShpIndex, true, 1, 4),
     (RKind::Full, false, 0, 4),
+    // the complete reader without index: rows must follow the shapes across iterations too
+    (RKind::FullNoIndex, true, 0, 3),
+    (RKind::FullNoIndex, false, 0, 3),
 ];
-const MAX_ALPHABET: usize = 19;
+const MAX_ALPHABET: usize = 20;
 
 /// Sweep unit: (configuration, first letter). All histories up to `max_len` starting with that
 /// letter (for the 4-record configurations one call less, their alphabet has 19 letters).
